@@ -141,7 +141,7 @@ Section Inst.
         let '(p', r) := single_commit_validator msg_of_i vrf_i e p m in
         let q := mkpool g ng in
         (code (pool_eqb p' g ng && Bool.eqb reject (match r with SReject => true | SIgnore => false end))
-              (forallb (fun c => sc_in c (all p) || commit_valid e c) (all q)), q)
+              (forallb (fun c => sc_in c (all p) || commit_valid e c) (all q) && (negb (nodup_b (all p)) || nodup_b (all q))), q)
     | OAdd c g ng =>
         let q := mkpool g ng in
         (code (pool_eqb (pool_add p c) g ng) true, q)
@@ -149,7 +149,7 @@ Section Inst.
         let '(p', er) := certify (fun c => CSig [(ki, c)]) e p from to a in
         let q := mkpool g ng in
         (code (scs_eqb (gossiped p') g && scs_same (nongossiped p') ng && Bool.eqb er err)
-              (forallb (fun c => sc_in c (all p) || commit_valid e c) (all q)), q)
+              (forallb (fun c => sc_in c (all p) || commit_valid e c) (all q) && (negb (nodup_b (all p)) || nodup_b (all q))), q)
     | OGac res v g ng =>
         let q := mkpool g ng in
         let m := get_aggregate_commit agg_i e (gossiped p) (nongossiped p) in
@@ -174,14 +174,16 @@ Section Inst.
         (code (pool_eqb (upgrade p cs) g ng) (scs_same (all q) (all p)), q)
     end.
 
-  Fixpoint check_ops (e : env) (p : pool) (os : list op) (i : N) : N :=
+  (* first operation violating the oracle if there is one, otherwise first operation differing from the model *)
+  Fixpoint check_ops (e : env) (p : pool) (os : list op) (i : N) (first_model : N) : N :=
     match os with
-    | [] => 0
+    | [] => first_model
     | o :: t => let '(c, q) := check_op e p o in
-                if c =? 0 then check_ops e q t (i + 1) else 4 * i + c
+                if 2 <=? c then 4 * i + c
+                else check_ops e q t (i + 1) (if (first_model =? 0) && (c =? 1) then 4 * i + c else first_model)
     end.
 End Inst.
 
 Definition scenario : Type := list key * env * list op.
 Definition check_scenario (s : scenario) : N :=
-  let '(kt, e, os) := s in check_ops kt e (empty_pool csig) os 0.
+  let '(kt, e, os) := s in check_ops kt e (empty_pool csig) os 0 0.
